@@ -317,7 +317,9 @@ teardown:
             pos += 12;
             if (pos + sz > g_ivf_len)
                 break;
-            uint8_t *buf = (uint8_t *)__real_malloc(sz ? sz : 1);
+            /* slack behind the data (SvtAv1DecApp's read buffer has it): keeps the bit reader's known prefetch
+             * over-read (C08/C10 finding) out of this property's reports */
+            uint8_t *buf = (uint8_t *)__real_calloc(1, (size_t)sz + 64);
             memcpy(buf, g_ivf + pos, sz);
             pos += sz;
             if (f == 0)
